@@ -4,6 +4,7 @@ import (
 	"bytes"
 	"context"
 	"encoding/json"
+	"errors"
 	"fmt"
 	"os"
 	"os/exec"
@@ -69,6 +70,12 @@ func TestC31Helper(t *testing.T) {
 	var h struct {
 		Path string
 		Data *session.Data
+		// Fresh: the storage starts without a file, as on a new installation: the
+		// helper first looks for a session (none), stores Old, and then replaces
+		// it with Data - all on one FileStorage value. The marker call (an unlink
+		// of a file that does not exist) separates the two stores in the trace.
+		Fresh bool
+		Old   *session.Data
 	}
 	raw, err := os.ReadFile(spec)
 	if err != nil {
@@ -78,6 +85,15 @@ func TestC31Helper(t *testing.T) {
 		os.Exit(3)
 	}
 	l := session.Loader{Storage: &session.FileStorage{Path: h.Path}}
+	if h.Fresh {
+		if _, err := l.Load(context.Background()); !errors.Is(err, session.ErrNotFound) {
+			os.Exit(5)
+		}
+		if err := l.Save(context.Background(), h.Old); err != nil {
+			os.Exit(6)
+		}
+		_ = os.Remove(h.Path + ".marker")
+	}
 	if err := l.Save(context.Background(), h.Data); err != nil {
 		os.Exit(4)
 	}
@@ -96,9 +112,11 @@ type traceOp struct {
 }
 
 var (
-	reLine  = regexp.MustCompile(`^(\d+)\s+(\w+)\((.*)\)\s+=\s+(-?\d+)(.*)$`)
-	reFD    = regexp.MustCompile(`^\d+<([^>]*)>`)
-	reQuote = regexp.MustCompile(`"((?:[^"\\]|\\.)*)"`)
+	reLine       = regexp.MustCompile(`^(\d+)\s+(\w+)\((.*)\)\s+=\s+(-?\d+)(.*)$`)
+	reUnfinished = regexp.MustCompile(`^(\d+)\s+(\w+\(.*) <unfinished \.\.\.>$`)
+	reResumed    = regexp.MustCompile(`^(\d+)\s+<\.\.\. (\w+) resumed>(.*)$`)
+	reFD         = regexp.MustCompile(`^\d+<([^>]*)>`)
+	reQuote      = regexp.MustCompile(`"((?:[^"\\]|\\.)*)"`)
 )
 
 const tracedCalls = "openat,open,creat,write,pwrite64,writev,fsync,fdatasync,rename,renameat,renameat2,close,ftruncate,truncate,unlink,unlinkat,fchmod,fchmodat,link,linkat"
@@ -115,16 +133,39 @@ func helperCmd(t *testing.T, spec string, straceArgs ...string) *exec.Cmd {
 	return cmd
 }
 
-func parseTrace(t *testing.T, file, dir string) []traceOp {
+func parseTrace(t *testing.T, file, dir string) ([]traceOp, error) {
 	raw, err := os.ReadFile(file)
 	if err != nil {
 		t.Fatalf("trace: %v", err)
 	}
 	counts := map[string]int{}
 	var ops []traceOp
+	// With -f, a call that is still running when another thread makes one is
+	// written in two pieces: "pid call(args <unfinished ...>" and later
+	// "pid <... call resumed>rest) = ret". Under load that happens to the very
+	// calls that matter here (a big write, an fsync). The pieces are joined
+	// first; the order of operations is that of their completion.
+	pending := map[string]string{}
+	var lines []string
 	for _, ln := range strings.Split(string(raw), "\n") {
+		if m := reUnfinished.FindStringSubmatch(ln); m != nil {
+			pending[m[1]] = m[1] + " " + m[2]
+			continue
+		}
+		if m := reResumed.FindStringSubmatch(ln); m != nil {
+			if head, ok := pending[m[1]]; ok {
+				delete(pending, m[1])
+				ln = head + m[3]
+			}
+		}
+		lines = append(lines, ln)
+	}
+	for _, ln := range lines {
 		m := reLine.FindStringSubmatch(ln)
 		if m == nil {
+			if strings.Contains(ln, dir) && !strings.Contains(ln, "+++") && !strings.Contains(ln, "---") {
+				return nil, fmt.Errorf("a trace line about the session directory could not be parsed: %q", ln)
+			}
 			continue
 		}
 		pid, name, args := m[1], m[2], m[3]
@@ -174,7 +215,7 @@ func parseTrace(t *testing.T, file, dir string) []traceOp {
 		}
 		ops = append(ops, op)
 	}
-	return ops
+	return ops, nil
 }
 
 // ---- file-system model for the simulated crash states
@@ -363,7 +404,13 @@ func TestC31(t *testing.T) {
 		if got, err := loadState(dir); err != nil || !reflect.DeepEqual(got, newD) {
 			t.Fatalf("reference run did not store the new session: %v", err)
 		}
-		ops := parseTrace(t, traceFile, dir)
+		ops, perr := parseTrace(t, traceFile, dir)
+		if perr != nil {
+			// the harness could not read its own reference trace: no verdict for this pair
+			t.Logf("pair %d skipped: %v", pi, perr)
+			st.Class("skipped:reference-trace-unparsed")
+			continue
+		}
 		if len(ops) < 2 {
 			t.Fatalf("reference trace has %d operations on the session directory", len(ops))
 		}
@@ -388,6 +435,72 @@ func TestC31(t *testing.T) {
 			_ = cmd.Run() // the tracee is killed; strace exits non-zero
 			check(fmt.Sprintf("SIGKILL at entry of %s #%d (op %d/%d of the save)", op.name, op.ordinal, i+1, len(ops)), i > firstMut && i <= lastMut)
 			st.Class("real-kill")
+		}
+		// ---- (1b) a storage that starts empty (every second pair): look for a
+		// session, find none, store the old one, replace it by the new one, all on
+		// one FileStorage value; a real crash at the entry of every operation. Up to
+		// the marker the directory may hold no session or the complete old one,
+		// after it the complete old or new one.
+		if pi%2 == 0 {
+			freshSpecB, _ := json.Marshal(map[string]any{"Path": path, "Data": newD, "Fresh": true, "Old": oldD})
+			freshSpec := filepath.Join(work, fmt.Sprintf("fresh%d.json", pi))
+			if err := os.WriteFile(freshSpec, freshSpecB, 0o600); err != nil {
+				t.Fatal(err)
+			}
+			resetFresh := func() {
+				_ = os.RemoveAll(dir)
+				if err := os.MkdirAll(dir, 0o755); err != nil {
+					t.Fatal(err)
+				}
+			}
+			resetFresh()
+			ftrace := filepath.Join(work, fmt.Sprintf("ftrace%d.txt", pi))
+			cmd := helperCmd(t, freshSpec, "-y", "-s", "0", "-o", ftrace, "-e", "trace="+tracedCalls)
+			if out, err := cmd.CombinedOutput(); err != nil {
+				t.Fatalf("reference run (fresh storage) failed: %v\n%s", err, out)
+			}
+			fops, perr := parseTrace(t, ftrace, dir)
+			marker := -1
+			for i, op := range fops {
+				if strings.HasPrefix(op.name, "unlink") && strings.Contains(op.line, ".marker") {
+					marker = i
+				}
+			}
+			if perr != nil || marker < 0 {
+				t.Logf("pair %d fresh scenario skipped: %v (marker %d)", pi, perr, marker)
+				st.Class("skipped:reference-trace-unparsed")
+			} else {
+				for i, op := range fops {
+					resetFresh()
+					cmd := helperCmd(t, freshSpec, "-o", os.DevNull, "-e", "trace="+op.name, "-e", fmt.Sprintf("inject=%s:signal=SIGKILL:when=%d", op.name, op.ordinal))
+					_ = cmd.Run()
+					what := fmt.Sprintf("fresh storage (load miss, store, store): SIGKILL at entry of %s #%d (op %d/%d, marker at %d)", op.name, op.ordinal, i+1, len(fops), marker+1)
+					got, err := loadState(dir)
+					class := "old"
+					switch {
+					case errors.Is(err, session.ErrNotFound) && i <= marker:
+						class = "none"
+					case err != nil:
+						ents, _ := os.ReadDir(dir)
+						var names []string
+						for _, e := range ents {
+							info, _ := e.Info()
+							names = append(names, fmt.Sprintf("%s(%d)", e.Name(), info.Size()))
+						}
+						fail("C31 violated: after %s the session does not load: %v (old %d bytes, new %d bytes, directory now: %v)", what, err, len(oldBytes), len(newBytes), names)
+						class = "broken"
+					case reflect.DeepEqual(got, oldD):
+					case reflect.DeepEqual(got, newD) && i > marker:
+						class = "new"
+					default:
+						fail("C31 violated: after %s the loaded session is neither the old nor the new one", what)
+						class = "mixed"
+					}
+					st.Case(fmt.Sprintf("pair%d:%s", pi, what), i > marker, fmt.Sprintf("pair %d: %s -> %s", pi, what, class), "state="+class, "scenario=fresh-storage")
+					st.Class("real-kill")
+				}
+			}
+			reset()
 		}
 		// ---- (2) simulated: every prefix, last write partial; then power loss
 		base := &fsModel{files: map[string]*mfile{path: {data: append([]byte(nil), oldBytes...), synced: len(oldBytes)}}}
